@@ -14,8 +14,9 @@ Reading of the sentence fixed here (documented in docs/C16.md):
   weaker of the two conventions found in the back-ends);
 * an `Origin: null` header carries no origin and counts as "no Origin present";
 * "comes from the same origin or a configured trusted origin" is decided on the `(scheme, host)` that
-  `net/url` assigns to the header (parameter), against the configured list read as: exact
-  `scheme://host[:port]`, or `scheme://*.domain` = same scheme and host ending in `.domain`;
+  `net/url` assigns to the lower-cased header, against the configured list read — again as `net/url`
+  reads a URL text — as: exact `scheme://host[:port]` (userinfo, a root path, an empty `?`/`#` marker
+  and letter case do not count), or `scheme://*.domain` = same scheme and host ending in `.domain`;
 * with a session back-end a token belongs to the session in whose reply it was handed out, and is
   accepted only together with that session's cookie ("swap between clients");
 * "if the token store fails": a storage call the middleware made for the request, before handing it to
@@ -30,17 +31,34 @@ inductive TrustEntry where
   | wild (scheme domain : Bytes)
   deriving Repr, DecidableEq
 
-/-- a configured trusted origin, read off the configuration string -/
+/-- The origin a URL text stands for, as `net/url` reads it (transcription `C19.Url.parse`, compared
+    with the real `url.Parse` on every case): an absolute `http`/`https` URL with a host that holds no
+    `*`, nothing behind the host but an optional root path (an empty `?` or `#` marker counts as
+    nothing); the origin is the scheme and the host (port included, userinfo not) in lower case.
+    `none`: the text denotes no origin. -/
+def originOfText (t : Bytes) : Option (Bytes × Bytes) :=
+  match C19.Url.parse t with
+  | none => none
+  | some u =>
+    if (u.scheme = b "http" ∨ u.scheme = b "https") ∧ u.host ≠ [] ∧ ¬ u.host.contains 42 ∧
+       (u.path = [] ∨ u.path = b "/") ∧ u.rawQuery = [] ∧ u.fragment = []
+    then some (u.scheme, toLower u.host) else none
+
+/-- A configured trusted origin, read off the configuration string (blanks around it dropped). An
+    entry holding `://*.` is a wildcard entry: with the `*` taken out it must denote an origin whose
+    host starts with the dot that followed the `*`; it stands for `wild scheme domain`. Any other
+    entry stands for exactly the origin it denotes. `none`: the entry denotes nothing. -/
 def specEntry (raw : Bytes) : Option TrustEntry :=
   let o := trim raw 32
-  match indexOf o (b "://") with
-  | none => none
+  match indexOf o (b "://*.") with
   | some i =>
-    let scheme := toLower (o.take i)
-    let rest := o.drop (i + 3)
-    let rest := if rest.getLast? = some 47 then rest.dropLast else rest
-    if hasPrefix rest (b "*.") then some (.wild scheme (toLower (rest.drop 2)))
-    else some (.exact scheme (toLower rest))
+    match originOfText (o.take (i + 3) ++ o.drop (i + 4)) with
+    | some (s, h) => if h.head? = some 46 then some (.wild s (h.drop 1)) else none
+    | none => none
+  | none =>
+    match originOfText o with
+    | some (s, h) => some (.exact s h)
+    | none => none
 
 def TrustEntry.admits (e : TrustEntry) (scheme host : Bytes) : Bool :=
   match e with
@@ -53,10 +71,14 @@ structure SpecCfg where
   idle : Nat
   entries : List TrustEntry
   sessionBacked : Bool
+  next : Option (Req → Bool) := none     -- Config.Next
+  cookie : CookieCfg := {}               -- the cookie fields of the configuration
+  eh : Err → Nat := fun _ => 403         -- Config.ErrorHandler: the status it answers an error with
 
-def specConfig (backend : Backend) (ext : Ext) (single : Bool) (idle : Nat) (raw : List Bytes) : SpecCfg :=
+def specConfig (backend : Backend) (ext : Ext) (single : Bool) (idle : Nat) (raw : List Bytes)
+    (next : Option (Req → Bool) := none) (cookie : CookieCfg := {}) (eh : Err → Nat := fun _ => 403) : SpecCfg :=
   { ext := ext, single := single, idle := idle, entries := raw.filterMap specEntry,
-    sessionBacked := backend ≠ .storage }
+    sessionBacked := backend ≠ .storage, next := next, cookie := cookie, eh := eh }
 
 /-- one entry of the harness' token-store probe -/
 structure LiveItem where
@@ -76,6 +98,7 @@ structure Obs where
   fired : Bool                          -- some storage call of this request failed
   early : Bool                          -- … before the protected handler was entered (or it never was)
   live : Option (List LiveItem)         -- probe of the token store after the request, if available
+  attrs : Option CookieAttrs := none    -- attributes of the csrf cookie the reply sets, if it sets one
   deriving Repr, DecidableEq
 
 /-- the token-store probe of a model state (what the harness reads out of the real store) -/
@@ -89,7 +112,8 @@ def probe (cfg : Cfg) (st : St) : List LiveItem :=
 /-- the observation the harness makes of a response `r` and the state `st` after it -/
 def obsOf (cfg : Cfg) (st : St) (r : Resp) : Obs :=
   { pass := r.pass, status := r.status, ck := r.ck, sc := r.sc, gens := r.gens, sgens := r.sgens,
-    fired := r.fg || r.fs || r.fd, early := r.early, live := some (probe cfg st) }
+    fired := r.fg || r.fs || r.fd, early := r.early, live := some (probe cfg st),
+    attrs := respAttrs cfg st.now r }
 
 /-- the observations of a whole history run on the model (`none` for a clock advance) -/
 def runObs (cfg : Cfg) (gen sgen : Nat → Bytes) : St → List Op → List (Option Obs)
@@ -100,7 +124,7 @@ def runObs (cfg : Cfg) (gen sgen : Nat → Bytes) : St → List Op → List (Opt
 
 def panicObs : Obs :=
   { pass := false, status := 0, ck := none, sc := none, gens := [], sgens := [], fired := false, early := false,
-    live := none }
+    live := none, attrs := none }
 
 structure LiveTok where
   deadline : Nat
@@ -223,8 +247,9 @@ def rejectClause (o : Obs) (live : List (Bytes × LiveTok)) : Except String (Lis
   | some t => if t ≠ [] then .error "rejected-request-handed-out-token" else .ok live
   | none => .ok live
 
-/-- one request: the first violated clause, or the next spec state -/
-def specReq (cfg : SpecCfg) (s0 : SpecSt) (q : Req) (o : Obs) : Except String SpecSt :=
+/-- one request the middleware is in charge of (`Next` did not tell it to step aside): the first
+    violated clause, or the next spec state -/
+def specReqCore (cfg : SpecCfg) (s0 : SpecSt) (q : Req) (o : Obs) : Except String SpecSt :=
   let s := { s0 with issued := s0.issued ++ o.gens }
   match reachClause cfg s q o with
   | .error e => .error e
@@ -235,6 +260,60 @@ def specReq (cfg : SpecCfg) (s0 : SpecSt) (q : Req) (o : Obs) : Except String Sp
     | .ok live2 =>
       let s' := { s with live := live2 }
       if !probeSound s' o then .error "store-holds-unissued-or-dead-token" else .ok s'
+
+/-- "Next defines a function to skip this middleware when returned true" -/
+def skippedS (cfg : SpecCfg) (q : Req) : Bool :=
+  match cfg.next with
+  | some f => f q
+  | none => false
+
+/-- a request `Next` exempts: the middleware steps aside — the handler is reached, no csrf cookie is
+    set, no token is issued, the token store still holds nothing it should not; the bookkeeping does
+    not move -/
+def specSkip (s0 : SpecSt) (o : Obs) : Except String SpecSt :=
+  if !o.pass || o.ck.isSome || !o.gens.isEmpty then .error "next-skips-middleware"
+  else if !probeSound s0 o then .error "store-holds-unissued-or-dead-token"
+  else .ok s0
+
+/-- "leave a valid token cookie": the cookie carries the configured attributes. Domain, Path (with
+    the leading slash a cookie path has) and HttpOnly as configured; Secure when configured, and
+    always together with `SameSite=None`; SameSite as configured, read without regard to letter case
+    (`Strict`, `None`, `Disabled` = no attribute), `Lax` otherwise; unless `CookieSessionOnly`, an
+    `Expires` one idle period ahead for a token cookie and in the past for a cookie being expired;
+    with `CookieSessionOnly` no `Expires`. -/
+def attrsOK (cc : CookieCfg) (idle now : Nat) (t : Bytes) (a : CookieAttrs) : Bool :=
+  a.domain = cc.domain &&
+  (a.path = cc.path || a.path = 47 :: cc.path) && a.path.head? = some 47 &&
+  a.httpOnly = cc.httpOnly &&
+  decide (a.sameSite = (if toLower cc.sameSite = b "strict" then SameSite.strict
+                else if toLower cc.sameSite = b "none" then SameSite.none
+                else if toLower cc.sameSite = b "disabled" then SameSite.disabled else SameSite.lax)) &&
+  a.secure = (cc.secure || a.sameSite = .none) &&
+  (match a.expires with
+   | none => cc.sessionOnly
+   | some e => !cc.sessionOnly && (if t = [] then decide (e < now) else e = (now : Int) + idle))
+
+/-- the attribute clause for one observation -/
+def attrsClause (cfg : SpecCfg) (now : Nat) (o : Obs) : Bool :=
+  match o.ck, o.attrs with
+  | none, _ => true
+  | some t, some a => attrsOK cfg.cookie cfg.idle now t a
+  | some _, none => false
+
+def allErrs : List Err :=
+  [.originInvalid, .originNoMatch, .refererNotFound, .refererInvalid, .refererNoMatch, .missing, .extractor,
+   .tokenNotFound, .tokenInvalid, .storage]
+
+/-- a request turned away is answered by the configured ErrorHandler: the client sees the status it
+    produces for one of the middleware's errors -/
+def ehClause (cfg : SpecCfg) (o : Obs) : Bool := o.pass || allErrs.any fun e => cfg.eh e == o.status
+
+/-- one request: the first violated clause, or the next spec state -/
+def specReq (cfg : SpecCfg) (s0 : SpecSt) (q : Req) (o : Obs) : Except String SpecSt :=
+  if skippedS cfg q then specSkip s0 o
+  else if !attrsClause cfg s0.now o then .error "cookie-attributes-as-configured"
+  else if !ehClause cfg o then .error "rejected-request-answered-by-error-handler"
+  else specReqCore cfg s0 q o
 
 def specRun (cfg : SpecCfg) : SpecSt → List Op → List (Option Obs) → Option String
   | _, [], _ => none
@@ -259,13 +338,15 @@ def specEnd (cfg : SpecCfg) : SpecSt → List Op → List (Option Obs) → Optio
 def specTags (cfg : Cfg) (ops : List Op) (obs : List (Option Obs)) : List String :=
   let reqs := ops.filterMap fun o => match o with | .req q => some q | _ => none
   let os := obs.filterMap id
-  let unsafePass := (reqs.zip os).any fun (q, o) => !isSafe q.method && o.pass
+  let unsafePass := (reqs.zip os).any fun (q, o) => !skipped cfg q && !isSafe q.method && o.pass
   let unsafeRej := (reqs.zip os).any fun (q, o) => !isSafe q.method && !o.pass
-  let gate := (reqs.zip os).any fun (q, o) => !isSafe q.method && originPresent q && o.pass
+  let gate := (reqs.zip os).any fun (q, o) => !skipped cfg q && !isSafe q.method && originPresent q && o.pass
+  let skips := reqs.any (skipped cfg ·)
   let faults := os.any (·.fired)
   let expiry := os.any fun o => o.ck = some []
   (if unsafePass then ["nt-unsafe-pass"] else []) ++ (if unsafeRej then ["unsafe-reject"] else []) ++
   (if gate then ["nt-origin-pass"] else []) ++ (if faults then ["fault-fired"] else []) ++
+  (if skips then ["next-skipped"] else []) ++
   (if expiry then ["cookie-expired"] else []) ++ (if cfg.single then ["single"] else ["multi"])
 
 end C16
